@@ -15,6 +15,10 @@ source). All statements are for every operation sequence, of any length, with an
   operations the implementation model accepts.
 * `c18_timer`, `c18_timer_stop_idempotent` — first stop wins, repeated stops change nothing.
 * `c18_timestamp`, `c18_timestamp_on_close`, `c18_epoch_units`, `c18_resolve_order`.
+* `c18_override_restore`, `c18_guard_drop_restores_install_point`, `c18_bind_precedence`,
+  `c18_runtime_override` — the time-source environment over time: installing and dropping
+  thread-local overrides (`set_time_source` guards, `with_time_source` scopes, LIFO and out of order),
+  the runtime-wide override, and what a default constructor is bound to.
 -/
 namespace Timers
 
@@ -635,6 +639,185 @@ theorem c18_resolve_order (e t r : Bool) :
     (e = false → t = false → r = false → resolve e t r = .system) := by
   cases e <;> cases t <;> cases r <;> simp [resolve]
 
+/-! ## the time-source environment: installing and dropping overrides -/
+
+theorem Env.run_append (e : Env) (a b : List EOp) :
+    e.run (a ++ b) = (e.run a).bind fun e' => e'.run b := by
+  induction a generalizing e with
+  | nil => simp [Env.run]
+  | cons op a ih =>
+    simp only [List.cons_append, Env.run]
+    cases e.step op with
+    | none => simp
+    | some e1 => simpa using ih e1
+
+/-- Well-bracketed sequences: matched `set_time_source` / guard-drop pairs (LIFO), `with_time_source`
+scopes, constructions in between — arbitrarily nested. -/
+inductive Balanced : List EOp → Prop
+  | nil : Balanced []
+  | construct (x : Option Nat) {l : List EOp} : Balanced l → Balanced (.construct x :: l)
+  | guard (g s : Nat) {mid rest : List EOp} : Balanced mid → Balanced rest →
+      Balanced (.install g s :: (mid ++ .dropGuard g :: rest))
+  | scope (s : Nat) {mid rest : List EOp} : Balanced mid → Balanced rest →
+      Balanced (.scopeBegin s :: (mid ++ .scopeEnd :: rest))
+
+/-- a well-bracketed sequence leaves the whole environment as it found it -/
+theorem balanced_restores {ops : List EOp} (hb : Balanced ops) :
+    ∀ e e' : Env, e.run ops = some e' → e' = e := by
+  induction hb with
+  | nil => intro e e' h; simpa [Env.run] using h.symm
+  | construct x _ ih => intro e e' h; exact ih e e' (by simpa [Env.run, Env.step] using h)
+  | @guard g s mid rest _ _ ihm ihr =>
+    intro e e' h
+    cases hg : e.guards g with
+    | some p => simp [Env.run, Env.step, hg] at h
+    | none =>
+      cases hst : e.step (.install g s) with
+      | none => simp [Env.step, hg] at hst
+      | some e1 =>
+        rw [Env.run, hst, Option.bind_some, Env.run_append] at h
+        cases hm : e1.run mid with
+        | none => rw [hm] at h; cases h
+        | some e2 =>
+          have := ihm _ _ hm
+          subst this
+          rw [hm, Option.bind_some, Env.run] at h
+          simp only [Env.step, hg, Option.some.injEq] at hst
+          subst hst
+          simp only [Env.step, if_true, Option.bind_some] at h
+          refine (ihr _ _ h).trans ?_
+          obtain ⟨t, r, gs, sc, rg⟩ := e
+          simp only [Env.mk.injEq, true_and, and_true]
+          funext j
+          by_cases hj : j = g
+          · subst hj; simpa using hg.symm
+          · simp [hj]
+  | @scope s mid rest _ _ ihm ihr =>
+    intro e e' h
+    rw [Env.run] at h
+    simp only [Env.step, Option.bind_some, Env.run_append] at h
+    cases hm : Env.run { e with thread := some s, scopes := e.thread :: e.scopes } mid with
+    | none => rw [hm] at h; cases h
+    | some e2 =>
+      have := ihm _ _ hm
+      subst this
+      rw [hm, Option.bind_some, Env.run] at h
+      simp only [Env.step, Option.bind_some] at h
+      exact ihr _ _ h
+
+/-- **Dropping an override restores the previous one (LIFO nesting).** For every sequence of
+installs, guard drops, `with_time_source` scopes and constructions, erasing a well-bracketed part
+(matched install/drop pairs and scopes, nested to any depth) changes nothing afterwards: the
+environment after `pre ++ mid ++ post` is the environment after `pre ++ post`, so every later default
+constructor resolves to the same source — in particular the outer injected source is in effect again
+after an inner override ends. -/
+theorem c18_override_restore (pre mid post : List EOp) (hb : Balanced mid) (e e1 : Env)
+    (h : e.run (pre ++ mid ++ post) = some e1) :
+    e.run (pre ++ post) = some e1 ∧
+    ∀ e0, e.run pre = some e0 → e.run (pre ++ mid) = some e0 := by
+  rw [List.append_assoc, Env.run_append] at h
+  cases hp : e.run pre with
+  | none => simp [hp] at h
+  | some e0 =>
+    simp only [hp, Option.bind_some, Env.run_append] at h
+    cases hm : e0.run mid with
+    | none => simp [hm] at h
+    | some e0' =>
+      have := balanced_restores hb _ _ hm
+      subst this
+      simp only [hm, Option.bind_some] at h
+      refine ⟨by simp [Env.run_append, hp, h], fun e0'' h0 => ?_⟩
+      cases h0
+      simp [Env.run_append, hp, hm]
+
+theorem guard_kept {mid : List EOp} {g : Nat} (hm : ∀ op ∈ mid, op ≠ .dropGuard g) :
+    ∀ (e e' : Env) (p : Option Nat), e.guards g = some p → e.run mid = some e' → e'.guards g = some p := by
+  induction mid with
+  | nil => intro e e' p hg h; simp only [Env.run, Option.some.injEq] at h; subst h; exact hg
+  | cons op mid ih =>
+    intro e e' p hg h
+    simp only [Env.run] at h
+    cases hs : e.step op with
+    | none => simp [hs] at h
+    | some e1 =>
+      simp only [hs, Option.bind_some] at h
+      refine ih (fun o ho => hm o (List.mem_cons_of_mem _ ho)) e1 e' p ?_ h
+      have hne := hm op (List.mem_cons_self ..)
+      cases op with
+      | install g' s =>
+        cases hg' : e.guards g' with
+        | some q => simp [Env.step, hg'] at hs
+        | none =>
+          simp only [Env.step, hg', Option.some.injEq] at hs
+          subst hs
+          have : g ≠ g' := fun h => by subst h; simp [hg] at hg'
+          simp [this, hg]
+      | dropGuard g' =>
+        cases hg' : e.guards g' with
+        | none => simp [Env.step, hg'] at hs
+        | some q =>
+          simp only [Env.step, hg', Option.some.injEq] at hs
+          subst hs
+          have : g ≠ g' := fun h => hne (by rw [h])
+          simp [this, hg]
+      | scopeBegin s => simp only [Env.step, Option.some.injEq] at hs; subst hs; exact hg
+      | scopeEnd =>
+        cases hsc : e.scopes with
+        | nil => simp [Env.step, hsc] at hs
+        | cons q r => simp only [Env.step, hsc, Option.some.injEq] at hs; subst hs; exact hg
+      | installRt s =>
+        cases hr : e.runtime with
+        | some q => simp only [Env.step, hr, Option.some.injEq] at hs; subst hs; exact hg
+        | none =>
+          cases hrg : e.rtGuard <;> simp [Env.step, hr, hrg] at hs
+          subst hs; exact hg
+      | dropRt =>
+        cases hrg : e.rtGuard <;> simp [Env.step, hrg] at hs
+        subst hs; exact hg
+      | construct x => simp only [Env.step, Option.some.injEq] at hs; subst hs; exact hg
+
+/-- **What the code guarantees in any order**: whenever a guard is dropped — in LIFO order or not,
+whatever was installed, dropped or scoped in between — the thread-local override becomes what it was
+just before that guard's `set_time_source`. -/
+theorem c18_guard_drop_restores_install_point (e e1 e2 e3 : Env) (g s : Nat) (mid : List EOp)
+    (h1 : e.step (.install g s) = some e1) (h2 : e1.run mid = some e2)
+    (hm : ∀ op ∈ mid, op ≠ .dropGuard g) (h3 : e2.step (.dropGuard g) = some e3) :
+    e3.thread = e.thread := by
+  have hg1 : e1.guards g = some e.thread := by
+    cases hg : e.guards g with
+    | some q => simp [Env.step, hg] at h1
+    | none => simp only [Env.step, hg, Option.some.injEq] at h1; subst h1; simp
+  have hg2 := guard_kept hm e1 e2 _ hg1 h2
+  simp only [Env.step, hg2, Option.some.injEq] at h3
+  subst h3; rfl
+
+/-- **Precedence in an environment**: a constructor given an explicit source is bound to it; a
+default constructor is bound to the current thread-local override, else to the runtime override,
+else to the system clock. (`c18_resolve_order` is the same statement on presence flags.) -/
+theorem c18_bind_precedence (e : Env) :
+    (∀ s, e.bind (some s) = .fake s) ∧
+    (∀ s, e.thread = some s → e.bind none = .fake s) ∧
+    (∀ s, e.thread = none → e.runtime = some s → e.bind none = .fake s) ∧
+    (e.thread = none → e.runtime = none → e.bind none = .system) := by
+  refine ⟨fun s => rfl, fun s h => ?_, fun s h1 h2 => ?_, fun h1 h2 => ?_⟩ <;> simp [Env.bind, *]
+
+/-- **Runtime-wide override**: it does not nest — installing over an existing one panics and changes
+nothing; install then guard drop from an empty slot restores the empty slot; it never touches the
+thread-local override. -/
+theorem c18_runtime_override (e : Env) (s : Nat) :
+    (e.runtime.isSome → e.step (.installRt s) = some e ∧ e.out (.installRt s) = .panic) ∧
+    (e.runtime = none → e.rtGuard = false →
+      (e.step (.installRt s)).bind (fun e' => e'.step .dropRt) = some e) ∧
+    (∀ e', e.step (.installRt s) = some e' → e'.thread = e.thread) ∧
+    (∀ e', e.step .dropRt = some e' → e'.thread = e.thread) := by
+  refine ⟨fun h => ?_, fun h1 h2 => ?_, fun e' h => ?_, fun e' h => ?_⟩
+  · cases hr : e.runtime <;> simp_all [Env.step, Env.out]
+  · obtain ⟨t, r, gs, sc, rg⟩ := e
+    simp_all [Env.step]
+  · cases hr : e.runtime <;> cases hg : e.rtGuard <;> simp_all [Env.step] <;> (subst h; rfl)
+  · cases hg : e.rtGuard <;> simp_all [Env.step]
+    subst h; rfl
+
 /-! ## non-vacuity: concrete sequences the hypotheses hold for -/
 
 /-- a sequence through the representation switch with two concurrently live owned guards, a borrowed
@@ -673,6 +856,26 @@ example : (SState.run { wall := 1500, stamps := [], pending := 0, closed := [] }
     [.newStamp, .newOnClose, .setWall (-5), .newStamp, .setWall 1700, .closeOnClose]).closed = [1700] := by
   decide
 
+/-- nested overrides: inside the inner scope a default constructor is bound to the inner source, after
+it ends to the outer one again, after the outer guard is dropped to the system clock -/
+example :
+    (Env.init.run [.install 0 1, .scopeBegin 2]).map (·.bind none) = some (.fake 2) ∧
+    (Env.init.run [.install 0 1, .scopeBegin 2, .construct none, .scopeEnd]).map (·.bind none) = some (.fake 1) ∧
+    (Env.init.run [.install 0 1, .scopeBegin 2, .scopeEnd, .dropGuard 0]).map (·.bind none) = some .system := by
+  decide
+
+example : Balanced [.scopeBegin 2, .construct none, .install 3 4, .construct (some 7), .dropGuard 3, .scopeEnd] :=
+  Balanced.scope 2 (mid := [.construct none, .install 3 4, .construct (some 7), .dropGuard 3]) (rest := [])
+    (.construct none (Balanced.guard 3 4 (mid := [.construct (some 7)]) (rest := []) (.construct _ .nil) .nil)) .nil
+
+/-- guards dropped out of order (what the code does, `c18_guard_drop_restores_install_point`): the
+guard installed first restores "no override", the one installed second then restores source 1 —
+although no guard is live any more -/
+example :
+    (Env.init.run [.install 0 1, .install 1 2, .dropGuard 0]).map (·.bind none) = some .system ∧
+    (Env.init.run [.install 0 1, .install 1 2, .dropGuard 0, .dropGuard 1]).map (·.bind none) = some (.fake 1) := by
+  decide
+
 end Timers
 
 #print axioms Timers.c18_stopwatch_refines
@@ -687,3 +890,7 @@ end Timers
 #print axioms Timers.c18_timestamp_on_close
 #print axioms Timers.c18_epoch_units
 #print axioms Timers.c18_resolve_order
+#print axioms Timers.c18_override_restore
+#print axioms Timers.c18_guard_drop_restores_install_point
+#print axioms Timers.c18_bind_precedence
+#print axioms Timers.c18_runtime_override
